@@ -75,6 +75,17 @@ fn one(drv: &mut Driver, rep: &mut Report, rng: &mut impl RngCore, stream: &str,
     let mut c2 = c.ctx.clone(); c2.party ^= 1 << rng.gen_range(0..16); muts.push(("ctx-party", t, s, y, base, c2));
     let mut c2 = c.ctx.clone(); c2.action.push(0); muts.push(("ctx-action-extended", t, s, y, base, c2));
     let mut c2 = c.ctx.clone(); c2.label = LABELS.iter().find(|l| **l != c.ctx.label).unwrap(); muts.push(("ctx-label", t, s, y, base, c2));
+    // context re-splittings: another (session id, party id, action) whose concatenation sid || le64(party) || action is
+    // the SAME byte string — only the framing of the three fields distinguishes it from the honest context
+    {
+        let mut cat = c.ctx.sid.clone(); cat.extend_from_slice(&(c.ctx.party as u64).to_le_bytes()); cat.extend_from_slice(&c.ctx.action);
+        for split in [0usize, c.ctx.sid.len().saturating_sub(1), c.ctx.sid.len() + 1, c.ctx.sid.len() + 8, cat.len().saturating_sub(8)] {
+            if split + 8 > cat.len() || split == c.ctx.sid.len() { continue; }
+            let mut p8 = [0u8; 8]; p8.copy_from_slice(&cat[split..split + 8]);
+            let c2 = Ctx { sid: cat[..split].to_vec(), party: u64::from_le_bytes(p8) as usize, action: cat[split + 8..].to_vec(), label: c.ctx.label };
+            muts.push(("ctx-resplit", t, s, y, base, c2));
+        }
+    }
     let (t0, s0, y0, b0) = (t, proof.s, y, c.base);
     for (name, t, s, y, base, ctx) in muts {
         // a "mutation" that leaves every field unchanged (e.g. -t when t is the identity) is not one
